@@ -63,6 +63,10 @@ var r01hPrims = map[string]string{
 	"MapClear": "=", "NewProph": "=",
 }
 
+// r01hTypes: the GooseLang type names the translator refers to as constants.
+var r01hTypes = map[string]bool{"uint64T": true, "uint32T": true, "byteT": true, "boolT": true, "stringT": true, "unitT": true,
+	"anyT": true, "ptrT": true, "fileT": true, "disk.Disk": true, "disk.blockT": true, "ProphIdT": true}
+
 type emitSite struct {
 	name string
 	in   ssa.Instruction
@@ -89,6 +93,10 @@ func gallinaNameSites(p *Prog) []emitSite {
 					out = append(out, emitSite{s, in, f})
 					continue
 				}
+				if isCoqNamed((*op).Type(), "TypeIdent") {
+					out = append(out, emitSite{"type:" + s, in, f})
+					continue
+				}
 				if c, isCall := in.(*ssa.Call); isCall && strings.HasSuffix(calleeName(c), ".newCoqCall") && len(c.Call.Args) >= 2 && c.Call.Args[1] == *op {
 					_ = idx
 					out = append(out, emitSite{s, in, f})
@@ -107,6 +115,14 @@ func checkR01h(p *Prog, r *Report) {
 	for _, s := range sites {
 		r.Sites++
 		key := fmt.Sprintf("%s emits %s", FuncName(s.fn), s.name)
+		if tn, isType := strings.CutPrefix(s.name, "type:"); isType {
+			if strings.HasPrefix(tn, "<") {
+				// a placeholder next to a rejection: R02g decides that it is unreachable
+				continue
+			}
+			r.Check("R01h", key+" (type vocabulary)", instrPos(s.in), r01hTypes[tn], fmt.Sprintf("%q is emitted as a GooseLang type name but is not one of the library's types", tn))
+			continue
+		}
 		if !r01hVocab[s.name] {
 			r.Fail("R01h", key+" (vocabulary)", instrPos(s.in), fmt.Sprintf("%q is emitted as a Gallina name but is not a name of the GooseLang library: the generated file refers to a definition that does not exist (or to a user definition of that name)", s.name), "")
 			continue
